@@ -473,7 +473,7 @@ FLOW_MIN, FLOW_MAX = 1e-3, 1e3
 TASK_KINDS = {
     # kind: weight of being instantiated in a run, per property
     'C03': {'flash': 4, 'recycle': 3, 'campaign': 3, 'drain_refill': 1, 'decanter': 2, 'crystalliser': 2, 'vlle': 1, 'editor': 3},
-    'C04': {'flash': 5, 'recycle': 4, 'campaign': 4.5, 'drain_refill': 1.5, 'decanter': 1, 'crystalliser': 1, 'vlle': 0.5, 'editor': 3},
+    'C04': {'flash': 5, 'recycle': 4, 'campaign': 4.5, 'drain_refill': 3, 'decanter': 1, 'crystalliser': 1, 'vlle': 0.5, 'editor': 3},
 }
 EDITOR_OPS = {'scale': 2, 'to_phase': 2, 'set_phases': 2, 'set_T': 1, 'set_P': 1, 'restart': 2,
               'reset_cache': 1.5, 'set_rows': 1, 'set_flow': 2, 'set_chem': 1.5}
@@ -570,7 +570,7 @@ def make_cfg(rng, prop, tier):
     kinds = TASK_KINDS[prop]
     tasks = []
     for i in range(n_streams):           # every stream has a flash-type task of its own
-        tasks.append({'kind': rng.choice(['flash', 'flash', 'recycle', 'campaign']), 'stream': f's{i}',
+        tasks.append({'kind': rng.choice(['flash', 'flash', 'recycle', 'campaign', 'drain_refill']), 'stream': f's{i}',
                       'pair': rng.choice(SPEC_PAIRS + ['any', 'any', 'any']), 'w': rng.choice([1, 2, 3])})
     for _ in range(rng.randint(2, 5)):
         kind = rng.choices(sorted(kinds), [kinds[k] for k in sorted(kinds)])[0]
@@ -815,6 +815,12 @@ class EqWorld(BaseWorld):
                     return self.gen_vle(name, t, st, r, keep=0.5)
                 ph = 'l' if 'l' in lg else lg[0]
                 plan = [('vle',)]
+                locked = [k for k in pk.gas + pk.heavy if tot[k] > 0.]
+                if not locked and (pk.gas or pk.heavy):
+                    # something has to stay behind when the volatile chemicals are taken out
+                    k0 = (pk.gas or pk.heavy)[0]
+                    plan.append(('set', pk.ids[k0], r6(max(0.02 * float(tot.sum()), FLOW_MIN)),
+                                 'g' if (k0 in pk.gas and 'g' in lg) else ph))
                 plan += [('set', pk.ids[k], 0.0, sn.phases[0]) for k in vols]
                 plan += [('vle',)]
                 plan += [('set', pk.ids[k], r6(float(tot[k])), ph) for k in vols]
